@@ -201,7 +201,12 @@ func checkNormalize(t fataler, rec *ev.Recorder, in string) {
 		rec.Fail(t, aceSig("normalize-output-not-lowercase-ldh"), doc(), "Normalize(%q) returned the empty name", in)
 	}
 	out2, err2, pv2 := normalizeSafe(out)
-	if pv2 != nil || err2 != nil || out2 != out {
+	if len(out) > 253 && pv2 == nil {
+		// longer than any DNS name (253 octets): outside the domain of "requested certificate
+		// hostname". Normalize enforces no length limit, and x/net/idna cannot decode its own
+		// output for labels of more than ~1000 non-ASCII runes, so nothing is asserted here.
+		rec.Inconclusive("normalize: output longer than 253 octets, idempotence not asserted")
+	} else if pv2 != nil || err2 != nil || out2 != out {
 		d := doc()
 		d["second_output"] = out2
 		if err2 != nil {
@@ -462,7 +467,8 @@ func TestC33(t *testing.T) {
 	rec.Rule(c33Rule)
 	rec.Assume("IP address = netip.ParseAddr accepts the string; local name = localhost, *.localhost, *.local (optional trailing dot, any case)",
 		"only plain canonical LDH names under com/net/org/io/dev/de/co.uk are required to be accepted; every other acceptance decision is left to the implementation",
-		"distinctness of SHA-224 digests for distinct tokens is assumed (no collision search)")
+		"distinctness of SHA-224 digests for distinct tokens is assumed (no collision search)",
+		"idempotence is asserted for outputs of at most 253 octets (the DNS name length limit); Normalize itself enforces no length limit")
 	c33Witness(rec)
 	ev.RapidCheck(t, 30000, 1200000, func(t *rapid.T) {
 		if rapid.IntRange(0, 5).Draw(t, "kind") > 0 {
